@@ -86,6 +86,7 @@ int main(int argc, char **argv) {
   auto genC = rc::gen::exec([]() { COp o; o.k = *rc::gen::weightedElement<int>({{3, C_SETKEY}, {2, C_CLAIM_SET}, {1, C_CLAIM_DEL}, {2, C_LEEWAY}, {2, C_SETCB}, {1, C_CLOCK}, {9, C_VERIFY}, {2, C_ERRCLR}}); o.a = *UNI(0, 1 << 12); o.b = *UNI(0, 1 << 12); return o; });
   auto genB = rc::gen::exec([]() { BOp o; o.k = *rc::gen::weightedElement<int>({{2, B_HSET}, {1, B_HDEL}, {3, B_CSET}, {1, B_CDEL}, {1, B_IAT}, {2, B_OFFSET}, {4, B_SETKEY}, {3, B_SETCB}, {1, B_CLOCK}, {8, B_GEN}, {2, B_ERRCLR}}); o.a = *UNI(0, 1 << 12); o.b = *UNI(0, 1 << 12); o.c = *UNI(0, 4); return o; });
   bool ok = rc::check("C13: reused object == fresh object", [&]() {
+    if (v::shrink_exhausted()) return;
     int prov = *UNI(0, 2); int len = *UNI(1, 41); bool builder = *UNI(0, 2) == 1;
     HStats hs; std::string r; std::vector<BOp> bops; std::vector<COp> cops;
     if (builder) { bops = *rc::gen::container<std::vector<BOp>>(len, genB); r = run_builder(prov, bops, &hs); if (hs.after_different_class) { uint64_t fp = 1; for (auto &o : bops) fp = mix(fp, fnv(bop_str(o))); st.nontrivial(fp); } }
@@ -93,7 +94,7 @@ int main(int argc, char **argv) {
     st.evaluations++; st.cls(builder ? "builder-sequences" : "checker-sequences"); st.cls(builder ? "generate-calls-compared" : "verify-calls-compared", hs.calls);
     st.cls("calls-after-different-verdict-class-without-error_clear", hs.after_different_class); st.cls("message-text-differs-from-fresh(not-asserted)", hs.msg_differs);
     if (st.want_sample()) st.sample(case_json());
-    if (!r.empty()) { std::string sig = "C13:" + r; if (st.is_known(sig)) { st.known_hits[sig]++; return; } lastwhy = r; lastcase = case_json(); CURC = nullptr; CURB = nullptr; RC_FAIL(r); }
+    if (!r.empty()) { std::string sig = "C13:" + r; if (st.is_known(sig)) { st.known_hits[sig]++; return; } lastwhy = r; lastcase = case_json(); CURC = nullptr; CURB = nullptr; v::fail_seen()++; RC_FAIL(r); }
     CURC = nullptr; CURB = nullptr;
   });
   if (!ok && !lastwhy.empty()) st.violation("C13:" + lastwhy, "reused object answers differently from a fresh identically configured object", lastcase);
